@@ -865,6 +865,8 @@ static void apply_fault(int kind, int64_t param) {
   }
 }
 
+static int g_pcq_max; // SIM+ASAN engine: maximum coverage-guard quantum; 0 = engine off
+
 static void fault_opportunity() {
   // PRNG mode: pick one enabled point-fault kind and maybe apply it
   uint32_t kinds[3];
@@ -884,6 +886,8 @@ static void fault_opportunity() {
     // log-uniform 10^3 .. 10^6 points, biased short
     static const uint32_t lens[] = {300, 1000, 3000, 10000, 30000, 100000, 300000};
     param = lens[g.r_fault.below(7)];
+    if (g_pcq_max > 0) // SIM+ASAN engine: a point is up to 150 basic blocks long, and a spinning waiter burns them
+      param = param / 40 + 10;
     int cand[kMaxThreads];
     if (collect_candidates(cand, self()->id) == 0)
       return; // nobody else to run: a stall would be a no-op
@@ -1261,7 +1265,6 @@ extern "C" void sim_point(int kind, const void* addr) {
 // spin loop can keep the token).  The quantum sequence is a pure function of (seed, thread id),
 // independent of PRNG/replay mode, so step numbers line up in a replay.
 // ------------------------------------------------------------------------------------------
-static int g_pcq_max; // 0 = engine off
 // Per-guard classification (lazily, by the symbol the guard lives in): 1 = code under test,
 // 2 = C++ standard library instantiation.  The linker keeps ONE copy of every inline/template
 // function, so a std::vector<int>::resize called from (uninstrumented) harness code may well be the
